@@ -569,4 +569,15 @@ theorem fieldsOf_join (w : Bytes) (names : List Bytes)
     rfl
 
 
+theorem stripComment_append_hash (pre c : Bytes) :
+    stripComment (pre ++ hash :: c) = stripComment pre := by
+  unfold stripComment
+  induction pre with
+  | nil => simp [hash]
+  | cons b t ih =>
+    simp only [List.cons_append, List.takeWhile_cons]
+    split
+    · rw [ih]
+    · rfl
+
 end GolibsVerif.C07
